@@ -72,13 +72,31 @@ Theorem C15_closed_drops_all : forall es, let u := run (es ++ [ServerClosed]) in
   (forall ev, snd (step u ev) = []).
 Proof. exact closed_drops_all. Qed.
 
-(* --- a caller passing an empty flag set: FALSE (finding F27) -----------------------------------------------------------
-   The worker takes every request with flag 0 for a retry-timer expiry: the call leaves the set of reasons unchanged but
-   AddUser is sent again.  (For calls with a non-empty flag set is_retry is false and C15_sends_mirror asks for nothing
-   unless the set changes between empty and non-empty.) *)
-Theorem C15_flag0_call_resends_refuted : exists es, spec_run (es ++ [Track 0]) = spec_run es /\ armed (run es) = None /\
-  att (run (es ++ [Track 0; WorkerStep])) = att (run es) ++ [SAdd].
-Proof. exists [Track 1; WorkerStep; WorkerStep; ServerReply RExists]. repeat split. Qed.
+(* --- a caller passing an empty flag set (F27 repaired): the call sends nothing and changes nothing ---------------------
+   Only the request made by the retry timer is marked `retry`; a call with TrackingFlag(0) leaves the abstract set of
+   reasons unchanged, and when the worker takes it from the queue the flags, the state, the retry timer and the attempts
+   stay as they are (an entry that such a call created for an unknown user disappears again without any send). *)
+Theorem C15_empty_flag_call_inert :
+  (forall es, spec_run (es ++ [Track 0]) = spec_run es /\ spec_run (es ++ [Untrack 0]) = spec_run es) /\
+  (forall n, expected (n, n, false) = []) /\
+  (forall u r q1, wpc u = PIdle -> queue u = r :: q1 -> r = RAdd 0 \/ r = RRem 0 ->
+     (flags u = 0 -> armed u = None) ->
+     let u' := fst (step u WorkerStep) in
+     att u' = att u /\ flags u' = flags u /\ armed u' = armed u /\ snd (step u WorkerStep) = [] /\
+     (flags u <> 0 \/ q1 <> [] -> st u' = st u /\ conf u' = conf u /\ wpc u' = PIdle /\ queue u' = q1)).
+Proof.
+  split; [|split].
+  - intros es. unfold spec_run. rewrite !fold_left_app. cbn. rewrite Nat.lor_0_r, Nat.ldiff_0_r. auto.
+  - intros n. unfold expected. destruct (Nat.eqb n 0) eqn:E; cbn; rewrite ?E; reflexivity.
+  - intros u r q1 P Q R A. usplit u. subst w q. cbn [step fst snd]. rewrite dequeue_eq by reflexivity. unfold dequeue_hand.
+    cbn [present flags st queue wpc armed deq att conf].
+    assert (F : apply_req r fl = fl) by (apply apply_req_0_r; destruct R; subst; reflexivity).
+    assert (M : req_marked r = false) by (destruct R; subst; reflexivity).
+    rewrite F, M, orb_false_r. destruct (Nat.eqb fl 0) eqn:Z.
+    + apply eqb0 in Z. subst fl. rewrite (A eq_refl). unfold after_cancel, exit_check_hand, set_pc. cbn.
+      destruct q1; cbn; repeat split; auto; try (match goal with H : _ <> _ \/ _ <> _ |- _ => destruct H; contradiction end).
+    + cbn. repeat split; auto.
+Qed.
 
 (* --- the tie: decisions regenerated from _tracking_task (tr_tracking), hand-abstracted functions pinned ------------- *)
 (* the worker's decision list, regenerated from the if / elif structure of _tracking_task, in closed form; the machine's
@@ -93,7 +111,7 @@ Proof.
 Qed.
 
 Theorem C15_flag_arithmetic : (forall fl f, apply_add fl f = Nat.lor fl f) /\ (forall fl f, apply_rem fl f = Nat.ldiff fl f) /\
-  (forall f, is_retry_req f = Nat.eqb f 0).
+  (forall f marked, is_retry_req f marked = marked).
 Proof. repeat split. Qed.
 
 Theorem C15_abstracted_functions_pinned :
